@@ -26,7 +26,15 @@ def groups(fn, compound):
     """straight-line statement groups of a Compound: split at loops and at
     ifs that are not the guarded-write forms `if (outptr)` / `if (maxlen)`"""
     out, cur = [], []
-    for st in fn.ch(compound):
+
+    def flat(c):
+        # a bare nested block (or the body of an inlined helper) is part of the same straight line
+        for st in fn.ch(c):
+            if fn.k(st) == "Compound":
+                yield from flat(st)
+            else:
+                yield st
+    for st in flat(compound):
         k = fn.k(st)
         guarded_form = k == "If" and fn.canon(fn.ch(st)[0], subst=False) in ("outptr", "maxlen") and fn.k(fn.ch(st)[2]) == "Absent"
         if k in ("While", "For", "Do") or (k == "If" and not guarded_form):
@@ -155,11 +163,31 @@ def run(ctx):
     # prefix / suffix / allocation
     before = [s for s in paths.stores(rj) if s["path"] == "maxlen" and rj.line(s["node"]) < rj.line(tops[0])]
     fh = [s for s in before if s["rhs"] is not None and rj.canon(s["rhs"], subst=False) == "format_hyp(0, 0, d, start, duration)"]
-    six = [s for s in before if s["op"] == "+=" and paths.is_const(rj, s["rhs"], 6)]
-    ctx.check(e1, len(fh) == 1 and len(six) == 1, key(rj, "prefix-size"), rj.where(rj.root), "sizing prefix is not format_hyp(NULL,0,...) + 6")
-    between = [s for s in paths.stores(rj) if s["path"] == "maxlen" and s["op"] == "++" and rj.line(tops[0]) < rj.line(s["node"]) < rj.line(tops[1]) and s["node"] not in set(rj.walk(tops[0]))]
-    ctx.check(e1, len(between) == 3, key(rj, "suffix-size"), rj.where(rj.root), "sizing suffix is %d bytes, the writing pass emits `}`, newline and the terminator" % len(between))
+    def bump(s_):
+        """bytes a store adds to the running size: `++`, `+= k`; None for anything else"""
+        if s_["op"] == "++":
+            return lin.p_const(1)
+        if s_["op"] == "+=" and s_["rhs"] is not None:
+            return lin.poly(rj, s_["rhs"], subst=False)
+        return None
+    pre = {}
+    okpre = True
+    for s_ in before:
+        if s_ in fh or (s_["op"] == "=" and s_["node"] and rj.k(s_["node"]) == "Var"):
+            continue
+        b_ = bump(s_)
+        if b_ is None:
+            okpre = False
+        else:
+            pre = lin.p_add(pre, b_)
+    ctx.check(e1, len(fh) == 1 and okpre and pre == {(): 6}, key(rj, "prefix-size"), rj.where(rj.root), "sizing prefix is not format_hyp(NULL,0,...) + 6")
     al = [s for s in paths.stores(rj) if s["path"] == "d->json_result" and s["rhs"] is not None and "calloc" in rj.canon(s["rhs"], subst=False)]
+    between = [s for s in paths.stores(rj) if s["path"] == "maxlen" and rj.line(tops[0]) < rj.line(s["node"]) < (rj.line(al[0]["node"]) if al else rj.line(tops[1])) and s["node"] not in set(rj.walk(tops[0])) and not any(rj.k(a_) in ("If", "For", "While", "Do", "Switch") for a_ in rj.ancestors(s["node"]))]
+    suf = {}
+    for s_ in between:
+        b_ = bump(s_)
+        suf = lin.p_add(suf, b_) if b_ is not None else {("?",): 1}
+    ctx.check(e1, suf == {(): 3}, key(rj, "suffix-size"), rj.where(rj.root), "sizing suffix is %s bytes, the writing pass emits `}`, newline and the terminator" % lin.p_str(suf))
     ok = len(al) == 1 and rj.canon(al[0]["rhs"], subst=False).startswith("__ckd_calloc__(maxlen, 1,") and all(rj.line(s["node"]) < rj.line(al[0]["node"]) for s in before + between) and rj.line(al[0]["node"]) < rj.line(tops[1])
     ctx.check(e1, ok, key(rj, "allocation"), rj.where(rj.root), "the buffer is not allocated with the counted size after the sizing pass")
     wfh = [c for c in rj.calls("format_hyp") if rj.canon(rj.args(c)[0], subst=False) != "0"]
@@ -187,7 +215,7 @@ def run(ctx):
 
     # ---- E2 accounting inside format_seg_align ----------------------------------------------------------
     e2 = ctx.rule("EMIT.E2-accounting", "in format_seg_align every straight-line group adds to `len` exactly what it writes under `if (outptr)` and, while the remainder is still passed on, what it subtracts under `if (maxlen)`; every formatter call receives the cursor and the remainder", floor=10)
-    comps = [c for c in sa.find("Compound")]
+    comps = [c for c in sa.find("Compound") if sa.parent[c] is None or sa.k(sa.parent[c]) != "Compound"]
     ng = 0
     last_call_line = max([sa.line(c) for c in sa.calls("format_align_iter")] or [0])
     for comp in comps:
